@@ -77,7 +77,7 @@ DocCases ==
   UNION {UNION {
      LET K == Len(rels) IN
      {[g |-> rels[k].g, members |-> rels[k].members, masks |-> rels[k].masks, rtype |-> rels[k].rtype,
-       norder |-> (K + k + Len(rels[1].members)) % 3, place |-> "", vers |-> << >>,
+       norder |-> (K + k + Len(rels[1].members)) % 3, place |-> "", vers |-> << >>, ids |-> [mode |-> "", z |-> 0],
        doc |-> [spec |-> sp.name, kind |-> Kind(sp), s |-> sp.s, k |-> k, rels |-> rels, relorder |-> ord]]
         : k \in 1 .. K, ord \in Perms(1 .. K)}
      : rels \in DocsOf(sp)} : sp \in DocSpecs}
